@@ -40,6 +40,10 @@ def main():
     for _ in range(250 if quick else 4000):
         quantities.append({"m": rng.choice(MAGS), "u": rand_spec() if rng.random() < 0.7 else [[rng.choice([None] + prefixes), rng.choice(names), 1]]})
     extra_prefixes = [[a, b, op] for a in ("kilo", "mebi", "milli", "kibi") for b in ("kibi", "mega", "kilo", "pebi") for op in ("mul", "div") if (a in prefixes and b in prefixes)] + [[10, 7], [2, 5], [10, -5], [7, 3]]
+    # exhaustive: every named unit x every prefix once, as a quantity (its JSON stores the unit as text)
+    for n in names:
+        for p in prefixes:
+            quantities.append({"m": ["int", "2", "1"], "u": [[p, n, 1]], "json_only": True})
     late = [["G", "m", "length"], ["k", "t", "speed"], ["m", "K", "time"], ["M", "s", "mass"], ["h", "h", "length"]]
     r = impl("serial_worker.py", {"units": units, "quantities": quantities, "extra_prefixes": extra_prefixes, "late": late}, timeout=1500)
     total = sum(r["counts"].values())
@@ -53,7 +57,15 @@ def main():
         repl = {"codec": f["codec"], "object": f["object"], "came_back": f.get("got"), "spec": f.get("spec"),
                 "how": "harness/impl/serial_worker.py: pickle.loads(pickle.dumps(o)) / copy / deepcopy / json with MeasuredJSONEncoder+Decoder / codecs_installed / pydantic TypeAdapter / Quantity(*q.__composite_values__())"}
         if f["kind"] == "quantity" and f["codec"] in JSONISH and f.get("unit_text_ok") is False:
-            c.violation("quantity-json:unit-text-does-not-parse-back", f"{f['codec']}: {f['what']} (the unit is stored as the text {f['object'].get('str')!r})", repl)
+            # which C13 class does the unit's text fall into?  (a collision that C13 does not list is a new violation)
+            ut = f.get("unit_text") or ""
+            if ut[:1] in "0123456789.-+" and " " in ut: key = "quantity-json:unit-text-does-not-parse-back"
+            elif ut[:1] in "0123456789": key = "quantity-json:unit-text-does-not-parse-back"
+            else:
+                sym = "".join(ch for ch in ut.split("\u22c5")[0] if ch not in "\u207b\u2070\u00b9\u00b2\u00b3\u2074\u2075\u2076\u2077\u2078\u2079")
+                known13 = {k["key"] for k in load_known() if k["property"] == "C13" and k.get("status") == "known"}
+                key = "quantity-json:unit-text-does-not-parse-back" if f"collision:{sym}" in known13 else f"quantity-json:collision:{sym}"
+            c.violation(key, f"{f['codec']}: {f['what']} (the unit is stored as the text {ut!r})", repl)
         else:
             c.violation(f"{f['kind']}:{f['codec']}:{f['what'][:40]}", f"{f['kind']} through {f['codec']}: {f['what']}", repl)
     c.sample({"unit": units[0], "quantity": quantities[0]}); c.sample({"codecs": sorted(set(k.split(':')[1] for k in r["counts"]))})
